@@ -38,7 +38,8 @@ Kinds == {"-", "f", "s"}
 Layouts == {lay \in [0..MaxT -> Kinds] : Cardinality({u \in 0..MaxT : lay[u] # "-"}) <= MaxSamples}
 
 VARIABLE g
-Init == g \in [lay : Layouts, lb : Lookbacks, qlb : QLookbacks, off : Offsets, step : Steps,
+\* rag: the window ends after its last step (end - start is not a multiple of the step; only for steps of 2 ticks or more)
+Init == g \in [rag : {0, 1}, lay : Layouts, lb : Lookbacks, qlb : QLookbacks, off : Offsets, step : Steps,
                start : Starts, n : NSteps, at : Ats, ctx : Contexts]
 Next == UNCHANGED g
 
@@ -64,7 +65,7 @@ PlanOf(x) == CASE x.ctx = "bare"  -> <<SelNodeOf(x)>>
                [] x.ctx = "merged" -> <<SelAt(<<Metric("m"), Eq("a", "x")>>, x.off, AtK(x), AtV(x)), Agg("sum", TRUE, <<>>, <<1>>),
                                         Sel(<<Metric("m")>>), Agg("count", TRUE, <<>>, <<3>>), Bin("*", 2, 4)>>
 
-EndOf(x) == IF x.step = 0 THEN x.start ELSE x.start + (x.n - 1) * x.step
+EndOf(x) == IF x.step = 0 THEN x.start ELSE x.start + (x.n - 1) * x.step + (IF x.step >= 2 THEN x.rag ELSE 0)
 
 ScnOf(x) == Scn("sel", "C02", TickMs, Data(x), PlanOf(x), x.start, EndOf(x), x.step, x.lb, x.qlb)
 
@@ -93,8 +94,8 @@ Interesting(x) ==
      \/ LayAt(x, r - Lb(x)) # "-"
      \/ LayAt(x, r - Lb(x) - 1) # "-"
      \/ (\E u \in 0..MaxT : x.lay[u] = "s" /\ u * Stretch <= r /\ u * Stretch >= r - Lb(x))
-Hash(x) == (x.lb * 7 + x.qlb * 13 + (x.off + 5) * 17 + x.step * 19 + x.start * 23 + x.n * 29
+Hash(x) == (x.rag * 41 + x.lb * 7 + x.qlb * 13 + (x.off + 5) * 17 + x.step * 19 + x.start * 23 + x.n * 29
             + Cardinality({u \in 0..MaxT : x.lay[u] = "f"}) * 31
             + FoldSet(LAMBDA u, acc : acc + (IF x.lay[u] = "-" THEN 0 ELSE IF x.lay[u] = "f" THEN u + 1 ELSE 3 * (u + 1)), 0, 0..MaxT) * 37)
-EmitSel == IF (Interesting(g) /\ Pick(Hash(g), 0, Mod) = Seed % Mod) THEN Emit(ScnOf(g)) ELSE TRUE
+EmitSel == IF ((g.rag = 0 \/ g.step >= 2) /\ Interesting(g) /\ Pick(Hash(g), 0, Mod) = Seed % Mod) THEN Emit(ScnOf(g)) ELSE TRUE
 =============================================================================
